@@ -759,7 +759,7 @@ def WF (env : String → Option Elem) : Elem → Prop
     (∀ n, c = .object n → n ≠ "NotPassed" ∧ env n = some (.mk c kw items addI cont props pats addP pn deps els)) ∧
     ((∀ n, c ≠ .object n) → NodeOK c ⟨kw, items, addI, cont, props, pats, addP, pn, deps, els⟩) ∧
     WFL env items ∧ WFO env addI ∧ WFO env cont ∧ WFK env props ∧ WFK env pats ∧ WFO env addP ∧ WFO env pn ∧
-    WFK env deps ∧ WFL env els
+    WFD env deps ∧ WFL env els
 def WFO (env : String → Option Elem) : Option Elem → Prop
   | none => True
   | some e => WF env e
@@ -769,6 +769,10 @@ def WFL (env : String → Option Elem) : List Elem → Prop
 def WFK (env : String → Option Elem) : List (Key × Elem) → Prop
   | [] => True
   | (_, e) :: r => WF env e ∧ WFK env r
+/-- `dependencies`: only the element-valued entries hold an element -/
+def WFD (env : String → Option Elem) : List (Key × Elem) → Prop
+  | [] => True
+  | (k, e) :: r => (k.names.isSome = true ∨ WF env e) ∧ WFD env r
 end
 
 theorem evalV_propExpr (env) (k : Key) (x : PyExpr) (e : Elem) (h : evalV env x = some (.elem e)) :
@@ -824,16 +828,20 @@ theorem eval_reprPats (env) : ∀ (l : List (Key × Elem)), WFK env l →
     rw [WFK] at h
     simp only [reprKeyed, List.map_cons, evalKVs, eval_repr env e h.1, eval_reprPats env r h.2]
     rfl
-theorem eval_reprDeps (env) : ∀ (l : List (Key × Elem)), WFK env l →
+theorem eval_reprDeps (env) : ∀ (l : List (Key × Elem)), WFD env l →
     evalKVs env ((reprKeyed l).map depExpr) = some (l.map depEntry)
   | [], _ => rfl
   | (k, e) :: r, h => by
-    rw [WFK] at h
+    rw [WFD] at h
     have ih := eval_reprDeps env r h.2
-    have he := eval_repr env e h.1
     simp only [reprKeyed, List.map_cons, evalKVs, depExpr, depEntry]
     cases hk : k.names with
-    | none => simp only [he, ih]
+    | none =>
+      have he : evalV env (reprExpr e) = some (.elem e) := by
+        rcases h.1 with h1 | h1
+        · rw [hk] at h1; cases h1
+        · exact eval_repr env e h1
+      simp only [he, ih]
     | some l => simp only [evalV, ih]
 end
 
